@@ -318,7 +318,7 @@ pub fn generate(_prop: &str, tier: Tier, seed: u64, run: u64) -> Sc {
     let corp = corpus::corpus();
     for _ in 0..npairs {
         let (s, r) = if wl.chance(1, 6) {
-            let (a, b) = *wl.pick(&[("OldList", "NewList"), ("NatTree", "IntTree"), ("Vec<NatTree>", "Option<IntTree>"), ("RecV1", "RecV2"), ("RecV2", "RecV3"), ("(OldList,u8)", "NewList"), ("Vec<OldList>", "Vec<OldList>"), ("ServRefU", "ServRefU")]);
+            let (a, b) = *wl.pick(&[("OldList", "NewList"), ("NatTree", "IntTree"), ("Vec<NatTree>", "Option<IntTree>"), ("RecV1", "RecV2"), ("RecV2", "RecV3"), ("(OldList,u8)", "NewList"), ("Vec<OldList>", "Vec<OldList>"), ("ServRefU", "ServRefU"), ("SmallNat", "i128"), ("SmallNat", "u128"), ("SmallInt", "i128"), ("Vec<SmallNat>", "Vec<i128>"), ("Vec<SmallNat>", "Vec<u128>"), ("Vec<SmallInt>", "Vec<i128>"), ("Option<SmallNat>", "Option<i128>"), ("BTreeMap<String,SmallNat>", "BTreeMap<String,i128>"), ("BTreeMap<String,Option<Nat>>", "BTreeMap<String,Option<String>>"), ("BTreeMap<Nat,Int>", "BTreeMap<Int,Int>"), ("Vec<Nat>", "Vec<Int>"), ("BTreeMap<String,Nat>", "BTreeMap<String,Int>")]);
             (a.to_string(), b.to_string())
         } else if wl.chance(1, 2) {
             (wl.pick(&FAMILIES).to_string(), wl.pick(&FAMILIES).to_string())
@@ -576,7 +576,7 @@ fn host_limit_excluded(s: &str, r: &str) -> bool {
     }
     // 128-bit host integers, fixed-size arrays and bounded vectors legitimately reject
     // values of a wider sender type ("host-type range limits aside")
-    r.contains("128") || r.contains('[') || r.contains("Bounded") || r.contains("Duration") || r.contains("PathBuf")
+(r.contains("128") && !s.contains("Small")) || r.contains('[') || r.contains("ByteArray") || r.contains("Bounded") || r.contains("Duration") || r.contains("PathBuf")
 }
 
 fn native_pair(l: &mut Local, sender: &str, receiver: &str, vseed: u64, size: usize) {
@@ -626,7 +626,16 @@ fn native_pair(l: &mut Local, sender: &str, receiver: &str, vseed: u64, size: us
     };
     l.states.push(fnv1a(format!("native|{sender}|{receiver}").as_bytes()));
     match guard(|| (r.decode_one)(&bytes)) {
-        Guarded::Done(Ok(_)) => {}
+        Guarded::Done(Ok(got)) => {
+            // "... and the result is a value of t'": the sender's value, seen at the receiver's type
+            let mut renv = SEnv::new();
+            let rt = (r.sim_type)(&mut renv);
+            let unordered = ["Hash", "BTree", "Heap", "Set"].iter().any(|k| receiver.contains(k));
+            let (sv, rv) = ((s.av)(v.as_ref(), false), (r.av)(got.as_ref(), false));
+            if let Err(e) = coerced(&renv, &sv, &rv, &rt, unordered) {
+                l.v("native-result-is-the-sent-value", format!("{sender} <: {receiver}"), format!("decoding a {sender} at Rust type {receiver} succeeded with a different value: {e}; message {}", crate::engines::stream::hex(&bytes)));
+            }
+        }
         // Rust tuples, tuple structs and tuple variants are positional: by design (pinned by the
         // repository's own test_tuple) they only read tuple-shaped wire records. A host limit.
         Guarded::Done(Err(e)) if e.contains("is not a tuple type") => l.probe("native_receiver_positional_tuple_limit"),
